@@ -107,7 +107,11 @@ def replay_file(path):
 
 
 def finding_matches(f, ob):
-    return f.get('function') == ob.fn and (f.get('clause') in (None, ob.clause))
+    if f.get('function') != ob.fn:
+        return False
+    if f.get('match_suffix'):  # a family of clauses of one contract (e.g. the recorded failures of a native grid)
+        return (ob.clause or '').endswith(f['match_suffix'])
+    return f.get('clause') in (None, ob.clause)
 
 
 def conclude(prop, tier, seed, mod, cresults, obligations, wall, extra_info=None, verbose=False, only=None):
